@@ -29,24 +29,34 @@ func c14Environments(r *Run) {
 			name  string
 			env   func(d cliDir) []string
 			skip  int
-			out   int  // stdout a regular file under ulimit -f out (512-byte blocks)
-			empty bool // nothing at all on stdin
+			out   int    // stdout a regular file under ulimit -f out (512-byte blocks)
+			empty bool   // nothing at all on stdin
+			front []byte // bytes put in front of the primary input
 		}
 		cases := []envCase{
-			{"no HOME, no XDG_CACHE_HOME", func(d cliDir) []string { return []string{"TMPDIR=" + filepath.Join(d.root, "tmp")} }, -1, 0, false},
+			{"no HOME, no XDG_CACHE_HOME", func(d cliDir) []string { return []string{"TMPDIR=" + filepath.Join(d.root, "tmp")} }, -1, 0, false, nil},
 			{"cache root below a regular file", func(d cliDir) []string {
 				f := filepath.Join(d.root, "plainfile")
 				ioutil.WriteFile(f, []byte("x"), 0644)
 				return []string{"HOME=" + filepath.Join(d.root, "home"), "XDG_CACHE_HOME=" + filepath.Join(f, "sub"), "TMPDIR=" + filepath.Join(d.root, "tmp")}
-			}, -1, 0, false},
+			}, -1, 0, false, nil},
 			{"TMPDIR missing", func(d cliDir) []string {
 				return []string{"HOME=" + filepath.Join(d.root, "home"), "XDG_CACHE_HOME=" + filepath.Join(d.root, "cache"), "TMPDIR=" + filepath.Join(d.root, "no-such-dir")}
-			}, -1, 0, false},
-			{"stdin a regular file at offset 0", nil, 0, 0, false},
-			{"stdin a regular file behind 14 bytes", nil, 14, 0, false},
-			{"stdin a regular file behind 4100 bytes", nil, 4100, 0, false},
-			{"nothing on stdin (an empty pipe)", nil, -1, 0, true},
-			{"nothing on stdin (an empty regular file)", nil, 0, 0, true},
+			}, -1, 0, false, nil},
+			{"stdin a regular file at offset 0", nil, 0, 0, false, nil},
+			{"stdin a regular file behind 14 bytes", nil, 14, 0, false, nil},
+			{"stdin a regular file behind 4100 bytes", nil, 4100, 0, false, nil},
+			{"nothing on stdin (an empty pipe)", nil, -1, 0, true, nil},
+			{"nothing on stdin (an empty regular file)", nil, 0, 0, true, nil},
+			// the bytes of the input are the input: nothing is taken off or normalised on the cached
+			// path only (seeded change C14-i: the stdin spool dropped a UTF-8 byte order mark, so the
+			// cached runs parsed what --no-cache rejects)
+			{"a UTF-8 byte order mark in front of the input", nil, -1, 0, false, []byte{0xEF, 0xBB, 0xBF}},
+			{"a UTF-16 byte order mark in front of the input", nil, -1, 0, false, []byte{0xFF, 0xFE}},
+			{"a blank line in front of the input", nil, -1, 0, false, []byte("\n")},
+			{"a carriage return and a line feed in front of the input", nil, -1, 0, false, []byte("\r\n")},
+			{"a NUL byte in front of the input", nil, -1, 0, false, []byte{0}},
+			{"a blank in front of the input", nil, -1, 0, false, []byte(" ")},
 		}
 		for _, ec := range cases {
 			d := newCliDir()
@@ -59,6 +69,9 @@ func c14Environments(r *Run) {
 			rn := run
 			if ec.empty {
 				rn.primary = inHex(nil)
+			}
+			if ec.front != nil {
+				rn.primary = inHex(append(append([]byte(nil), ec.front...), rn.primary.bytes()...))
 			}
 			want := d.runEnv(rn, true, env, ec.skip, ec.out)
 			cold := d.runEnv(rn, false, env, ec.skip, 0) // the entry is written by a run whose output succeeds
